@@ -1,5 +1,8 @@
 (* Props/C10.v — Literal annotations follow the documented limits and hold exact values.
-   Statements only; proofs in Proofs/Literals.v.  The link_* theorems tie the regenerated Gen/Limits.v to the model. *)
+   Statements only; proofs in Proofs/Literals.v, Proofs/LitLink.v.  The link_* theorems tie the regenerated Gen/Limits.v to
+   the model.  PART 2 (the emitted text): the Literal annotation printed for a literal set reads back (parser of the
+   annotation language, Model/PyAnn.v, tied to CPython by X-ann) as EXACTLY that set, whatever characters the strings hold;
+   a set that is not shown reads back as str. *)
 From Coq Require Import List Bool Arith NArith.
 From J2M.Model Require Import Base Union Merge Optimize Detect.
 From J2M.Gen Require Limits.
@@ -72,4 +75,25 @@ Proof. exact Literals.lit_render_off. Qed.
 Theorem C10_lit_render_ok_spec :
   forall (n : nat) (ls : list str), Limits.lit_render_ok (Some n) ls = true <-> length ls < n.
 Proof. exact Literals.lit_render_ok_spec. Qed.
+
+(* ---- PART 2: the emitted text ---- *)
+From Coq Require Import String.
+From J2M.Model Require Import Emit PyLex PyAnn.
+From J2M.Proofs Require Import LitLink.
+
+Theorem C10_literal_text_exact :
+  forall (names : N -> option str) (ctx : N -> option N) (o : opts) (ov : bool) 
+         (ls : list str) (i : list imp) (txt : str) (fuel : nat),
+       print_ty names ctx o (TLit ov ls) = Some (i, txt) ->
+       lit_shown o ls = true ->
+       ls <> nil -> 2 + Datatypes.length ls <= fuel -> parse_ann_all fuel txt = Some (ALit ls).
+Proof. exact LitLink.literal_text_exact. Qed.
+
+Theorem C10_literal_text_hidden :
+  forall (names : N -> option str) (ctx : N -> option N) (o : opts) (ov : bool) 
+         (ls : list str) (i : list imp) (txt : str) (fuel : nat),
+       print_ty names ctx o (TLit ov ls) = Some (i, txt) ->
+       lit_shown o ls = false ->
+       2 + Datatypes.length ls <= fuel -> parse_ann_all fuel txt = Some (AName (s_ "str")).
+Proof. exact LitLink.literal_text_hidden. Qed.
 
